@@ -490,10 +490,18 @@ def tr_spec(draw, rot_classes=None, allow_abbrev=True, allow_13=True,
         else:
             rr = draw(st.integers(0, 2))
             cc = draw(st.integers(0, 2))
-            for q in range(3):
-                mask[3 * rr + q] = True
-                mask[3 * q + cc] = True
-        labels.append('tr:abbrev-' + kind)
+            # one row + one column determine the rotation uniquely only when
+            # their common element is not +-1 (otherwise a one-parameter
+            # family of completions exists and the reference is ambiguous)
+            if abs(B[3 * rr + cc]) > 0.99:
+                mask = None
+                kind = None
+            else:
+                for q in range(3):
+                    mask[3 * rr + q] = True
+                    mask[3 * q + cc] = True
+        if kind:
+            labels.append('tr:abbrev-' + kind)
     return md.trspec(o, full, star=star, n_entries=n, mask=mask, m=m), labels
 
 
